@@ -104,6 +104,27 @@ VerifyProof == /\ ~done /\ done' = TRUE
                                         res |-> VerifyProofRes(n, proof)])
                /\ UNCHANGED <<ctx, n, cert, proof>>
 
+\* The context lives as long as the validators' keys: it verifies many proofs for many decisions.  A signature made for
+\* decision d1 ("ok") or for decision d2 ("other") verifies for that decision only, whatever the context has verified before.
+SignedFor(s) == IF s.what = "ok" THEN "d1" ELSE IF s.what = "other" THEN "d2" ELSE "none"
+PartResFor(nn, idx, s, t) ==
+  IF idx < 1 \/ idx > nn THEN "range"
+  ELSE IF SignedFor(s) = t /\ s.who = idx THEN "ok"
+  ELSE IF SignedFor(s) = t /\ s.who # 0 THEN "wrongindex" ELSE "notvalidator"
+RECURSIVE ScanVecFor(_, _, _, _, _)
+ScanVecFor(nn, p, i, valid, t) ==
+  IF i > Len(p) THEN (IF valid <= (2 * nn) \div 3 THEN "few" ELSE "ok")
+  ELSE IF p[i] = None THEN ScanVecFor(nn, p, i + 1, valid, t)
+  ELSE IF PartResFor(nn, i, p[i], t) # "ok" THEN PartResFor(nn, i, p[i], t)
+  ELSE ScanVecFor(nn, p, i + 1, valid + 1, t)
+\* after a verification for d1, the SAME context is asked again about the SAME proof and its parts, for d1 or for d2
+Reverify(t) == /\ done /\ Len(hist) = 1 /\ hist[1].op = "verifyproof"
+               /\ hist' = Append(hist, [op |-> "reverify", ctx |-> ctx, n |-> n, target |-> t, proof |-> proof,
+                                        res |-> ScanVecFor(n, proof, 1, 0, t),
+                                        parts |-> [i \in 1..Len(proof) |->
+                                                     IF proof[i] = None THEN "none" ELSE PartResFor(n, i, proof[i], t)]])
+               /\ UNCHANGED <<ctx, n, cert, proof, done>>
+
 \* BTPProofContext.NewProofPart(hash, wallet): a validator gets a part at its own index, anybody else an error (res 0)
 NewPart(who) == /\ ~done /\ done' = TRUE
                 /\ \A i \in 1..Len(proof) : proof[i] = None
@@ -131,6 +152,7 @@ Next == \/ "list" \in Ops /\ \E s \in Sig(n) : AppendItem(s)
         \/ "vector" \in Ops /\ \E i \in 1..(n + MaxOver), s \in Sig(n) : AddPart(i, s)
         \/ "vector" \in Ops /\ \E i \in 0..(n + 1), s \in Sig(n) : VerifyPart(i, s)
         \/ "vector" \in Ops /\ VerifyProof
+        \/ "vector" \in Ops /\ \E t \in {"d1", "d2"} : Reverify(t)
         \/ "vector" \in Ops /\ \E w \in 0..n : NewPart(w)
         \/ "vector" \in Ops /\ \E k \in {"proof", "part"}, d \in {"trunc", "scalar", "badsig"} : DecodeGarbage(k, d)
 Spec == Init /\ [][Next]_vars
@@ -162,6 +184,13 @@ ProofAcceptIffStatement ==
 PartAcceptIffOwnIndex ==
   [][(Stepped /\ Last.op = "verifypart") =>
        ((Last.res = "ok") <=> (Last.idx \in 1..Last.n /\ Last.part.what = "ok" /\ Last.part.who = Last.idx))]_vars
+\* earlier verifications do not change later verdicts: asked again for d1 the answer is the same, and signatures that made a
+\* proof of d1 never make a proof (or a part) of d2
+SameAnswerAgain ==
+  [][(Stepped /\ Last.op = "reverify" /\ Last.target = "d1") => Last.res = hist[1].res]_vars
+ReplayRejected ==
+  [][(Stepped /\ Last.op = "reverify" /\ Last.target = "d2" /\ hist[1].res = "ok") =>
+        (Last.res # "ok" /\ \A i \in 1..Len(Last.proof) : Last.parts[i] # "ok")]_vars
 \* a part made by the context carries its maker's own index, so it verifies there
 NewPartOwnIndex ==
   [][(Stepped /\ Last.op = "newpart" /\ Last.res # 0) => PartRes(Last.n, Last.res, [who |-> Last.who, what |-> "ok"]) = "ok"]_vars
